@@ -102,13 +102,13 @@ uint32_t G_vp_hmac_calls = 0;
 static QAD *snap(QAD *d) { return qbv_copy(d, d->f1); }
 void _ZN10QXmppUtils16generateHmacSha1ERK10QByteArrayS2_(char *ret, char *key, char *text) { QAD *k = *(QAD**)key, *t = *(QAD**)text; QAD *r = qbv_new(20, 20); uint8_t *o = BD(r);
   G_vp_hmac_calls++;
-  for (uint32_t i = 0; i < VP_ORC_CAP; i++) { if (i >= hm_n) break; if (qb_eq(hm_log[i].key, k) && qb_eq(hm_log[i].text, t)) { for (int j = 0; j < 20; j++) o[j] = hm_log[i].dig[j]; *(QAD**)ret = r; return; } }
+  for (uint32_t i = 0; i < VP_ORC_CAP; i++) { if (i >= hm_n) break; if (vpl_x_eq(hm_log[i].key, k) && vpl_x_eq(hm_log[i].text, t)) { for (int j = 0; j < 20; j++) o[j] = hm_log[i].dig[j]; *(QAD**)ret = r; return; } }
   ASSERT(hm_n < VP_ORC_CAP, "HMAC oracle log full"); struct horc *e = &hm_log[hm_n]; hm_n++; e->key = snap(k); e->text = snap(t);
   for (int j = 0; j < 20; j++) { e->dig[j] = vp_u8(); o[j] = e->dig[j]; } *(QAD**)ret = r; }
 struct corc { QAD *text; uint32_t crc; };
 static struct corc cr_log[VP_ORC_CAP]; static uint32_t cr_n;
 uint32_t G_vp_crc_calls = 0;
 uint32_t _ZN10QXmppUtils13generateCrc32ERK10QByteArray(char *text) { QAD *t = *(QAD**)text; G_vp_crc_calls++;
-  for (uint32_t i = 0; i < VP_ORC_CAP; i++) { if (i >= cr_n) break; if (qb_eq(cr_log[i].text, t)) return cr_log[i].crc; }
+  for (uint32_t i = 0; i < VP_ORC_CAP; i++) { if (i >= cr_n) break; if (vpl_x_eq(cr_log[i].text, t)) return cr_log[i].crc; }
   ASSERT(cr_n < VP_ORC_CAP, "CRC oracle log full"); struct corc *e = &cr_log[cr_n]; cr_n++; e->text = snap(t); e->crc = vp_u32(); return e->crc; }
 #endif
